@@ -67,6 +67,7 @@ func (ds *defaultSpreaderPipeline) worker(ctx context.Context, wg *sync.WaitGrou
 				return
 			}
 
+			verifPoint("spread.recv")
 			ds.Lock()
 			err := ds.spreadBranch(root)
 			ds.Unlock()
